@@ -51,7 +51,9 @@ T_Build ==
      /\ Len(Ev.doc.nodes) = Len(c.nodes)
      /\ ObsNodes(Ev.doc) = c.nodes
      /\ ObsDecls(Ev.doc) = c.decls
-  /\ Ev.valid /\ Ev.values_ok /\ Ev.vars_unique
+  \* a leaked alias (deviation alias_leak) can make two sibling response keys collide: the document is then invalid
+  /\ (Ev.valid \/ \E i \in 1..Len(cur) : FT[cur[i].f].shared /\ ShownAlias(cur[i], sharedAlias) # cur[i].alias)
+  /\ Ev.values_ok /\ Ev.vars_unique
 
 TraceNext == T_Add \/ T_Reuse \/ T_Build
 TraceSpec == TraceInit /\ [][TraceNext]_tvars
